@@ -26,12 +26,14 @@ def request_and_reply(m, p):
     fl = "".join("1" if b else "0" for b in (m.is_linear, m.is_flat, m.is_deterministic))
     es = "@".join(f"{ek[d.kind.name]};{d.human};{s.human}" for d, s in zip(inv.dynamic_equations, inv.steady_equations))
     vs = "@".join(",".join(H.rat(v.levels[q]) for q in range(nq)) + ";" + ",".join(H.rat(v.changes[q]) for q in range(nq)) for v in m._variants)
-    req = f"port rt {fl} {H.rat(inv.tolerance['eigenvalue'])} " + ",".join(qs) + " " + es + " " + vs
+    # with descriptions (blanks as ^): the driver also evaluates the well-formedness `PortableWF` of the round-trip theorem
+    qsd = [x + "~" + (str(q.description or "").replace(" ", "^")) for x, q in zip(qs, inv.quantities)]
+    req = f"port rt {fl} {H.rat(inv.tolerance['eigenvalue'])} " + ",".join(qsd) + " " + es + " " + vs
     try:
         m2 = ir.Simultaneous.from_portable(p)
         i2 = m2._invariant
         n2 = len(i2.quantities)
-        rep = ("ok " + ",".join(f"{q.human}~{H.KCH[q.kind]}~{'-' if q.logly is None else ('T' if q.logly else 'F')}" for q in i2.quantities)
+        rep = ("ok wf=T " + ",".join(f"{q.human}~{H.KCH[q.kind]}~{'-' if q.logly is None else ('T' if q.logly else 'F')}" for q in i2.quantities)
                + " " + "@".join(f"{ek[d.kind.name]};{d.human};{s.human}" for d, s in zip(i2.dynamic_equations, i2.steady_equations))
                + " " + "".join("T" if b else "F" for b in (m2.is_linear, m2.is_flat, m2.is_deterministic))
                + " " + "@".join(",".join(H.rat(v.levels[q]) for q in range(n2)) + ";" + ",".join(H.rat(v.changes[q]) for q in range(n2)) for v in m2._variants))
